@@ -34,3 +34,72 @@ package babbage
 //@   ensures checked: err == nil && !old(len(config) > 0 && config[0].SkipBodyHashValidation) ==>
 //@       called(ValidateBlockBodyHash) && callres(ValidateBlockBodyHash) == nil && callarg(ValidateBlockBodyHash, 0) == data &&
 //@       callarg(ValidateBlockBodyHash, 3) == 5 && called(BlockBodyHash) && callarg(ValidateBlockBodyHash, 1) == callres(BlockBodyHash)
+
+// BEGIN generated C01 contracts (tools/gen_c01_contracts.py in /verif)
+// C01: a decoder that keeps its input stores exactly the bytes it was given; an identifier
+// is Blake2b-256 of the stored bytes (the cache, when set, holds that hash).
+//@ func (b *BabbageBlockHeaderBody) UnmarshalCBOR(cborData) (err)
+//@   props C01
+//@   attr maxpaths 4000
+//@   attr safe off
+//@   requires recv: b != nil
+//@   ensures stored: err == nil ==> seq(b.cborData) == seq(cborData) && len(b.cborData) == len(cborData)
+
+//@ func (h *BabbageBlockHeader) UnmarshalCBOR(cborData) (err)
+//@   props C01
+//@   attr maxpaths 4000
+//@   attr safe off
+//@   requires recv: h != nil
+//@   ensures stored: err == nil ==> seq(h.cborData) == seq(cborData) && len(h.cborData) == len(cborData)
+
+//@ func (b *BabbageTransactionBody) UnmarshalCBOR(cborData) (err)
+//@   props C01
+//@   attr maxpaths 4000
+//@   attr safe off
+//@   requires recv: b != nil
+//@   ensures stored: err == nil ==> seq(b.cborData) == seq(cborData) && len(b.cborData) == len(cborData)
+
+//@ func (o *BabbageTransactionOutput) UnmarshalCBOR(cborData) (err)
+//@   props C01
+//@   attr maxpaths 4000
+//@   attr safe off
+//@   requires recv: o != nil
+//@   ensures stored: err == nil ==> seq(o.cborData) == seq(cborData) && len(o.cborData) == len(cborData)
+
+//@ func (w *BabbageTransactionWitnessSet) UnmarshalCBOR(cborData) (err)
+//@   props C01
+//@   attr maxpaths 4000
+//@   attr safe off
+//@   requires recv: w != nil
+//@   ensures stored: err == nil ==> seq(w.cborData) == seq(cborData) && len(w.cborData) == len(cborData)
+
+//@ func (t *BabbageTransaction) UnmarshalCBOR(cborData) (err)
+//@   props C01
+//@   attr maxpaths 4000
+//@   attr safe off
+//@   requires recv: t != nil
+//@   ensures stored: err == nil ==> seq(t.cborData) == seq(cborData) && len(t.cborData) == len(cborData)
+
+//@ func (h *BabbageBlockHeader) Hash() (r)
+//@   props C01
+//@   requires recv: h != nil
+//@   requires cache: h.hash == nil || *h.hash == H256(seq(h.cborData))
+//@   assigns h.hash
+//@   ensures id: r == H256(seq(h.cborData))
+//@   ensures cache: h.hash != nil && *h.hash == H256(seq(h.cborData))
+
+//@ func (b *BabbageTransactionBody) Id() (r)
+//@   props C01
+//@   requires recv: b != nil
+//@   requires cache: b.hash == nil || *b.hash == H256(seq(b.cborData))
+//@   assigns b.hash
+//@   ensures id: r == H256(seq(b.cborData))
+//@   ensures cache: b.hash != nil && *b.hash == H256(seq(b.cborData))
+
+//@ func (u *BabbageProtocolParameterUpdate) UnmarshalCBOR(cborData) (err)
+//@   props C01
+//@   attr maxpaths 4000
+//@   attr safe off
+//@   requires recv: u != nil
+//@   ensures stored: err == nil ==> seq(u.cborData) == seq(cborData) && len(u.cborData) == len(cborData)
+// END generated C01 contracts
